@@ -361,7 +361,16 @@ impl<'a> Sem<'a> {
         }
         for v in self.loop_vars.clone() {
             self.w("#\"_\"#");
-            self.w(&v);
+            // the iterator is used here like anywhere else
+            let d = self.scopes.iter().rev().find_map(|sc| sc.iter().rev().find(|x| x.name == v)).map(|x| x.decl);
+            match d {
+                Some(d) if self.on("iterator-in-def-name") => {
+                    let st = self.here();
+                    self.ident(&v, Role::Use(d));
+                    self.span("iterator-in-def-name", st);
+                }
+                _ => self.w(&v),
+            }
         }
         self.p.decls[decl].pasted = true;
         true
@@ -1796,7 +1805,9 @@ impl<'a> Sem<'a> {
         let shadow = self.rng.chance(1, 6) && self.scopes.len() > 1;
         let name = if shadow {
             let cur_names: Vec<String> = self.scopes.last().unwrap().iter().map(|v| v.name.clone()).collect();
-            match self.scopes[..self.scopes.len() - 1].iter().flatten().filter(|v| !cur_names.contains(&v.name)).last() {
+            // (not an iterator of an enclosing foreach: it is pasted into the names of the defs in the loop,
+            // where a shadowing list or string would change what the record is called - or be an error)
+            match self.scopes[..self.scopes.len() - 1].iter().flatten().filter(|v| !cur_names.contains(&v.name) && !self.loop_vars.contains(&v.name)).last() {
                 Some(v) => {
                     self.p.feat.shadowing = true;
                     v.name.clone()
